@@ -161,6 +161,7 @@ func encode128(content string, checksum bool) (bc barcode.Barcode, err error, pv
 
 // checkCode128 returns the decode result (nil if the input was rightly rejected).
 func checkCode128(t TB, c C128Case) *ref.Code128Result {
+	noteCase("C05", "code128-roundtrip", c)
 	content := string(c.Content)
 	bc, err, pv := encode128(content, c.Checksum)
 	if pv != nil {
@@ -176,6 +177,7 @@ func checkCode128(t TB, c C128Case) *ref.Code128Result {
 	if !rep {
 		failf(t, "C05", "code128-roundtrip", c, "content outside the alphabet/length limits was accepted")
 	}
+	disturb("code128")
 	m, merr := modules1D(bc)
 	if merr != nil {
 		failf(t, "C05", "code128-roundtrip", c, "%v", merr)
@@ -221,6 +223,7 @@ func c05Account(st *Stats, c C128Case, res *ref.Code128Result) {
 }
 
 func TestC05Rapid(t *testing.T) {
+	foreignWarmup("code128", "code128nc")
 	st := NewStats("C05", "rapid")
 	runRapid(t, st, func(rt *rapid.T) {
 		c := C128Case{Content: BStr(genCode128Text(rt)), Checksum: rapid.Bool().Draw(rt, "checksum")}
